@@ -4,13 +4,17 @@ import (
 	"fmt"
 	"os"
 	"strings"
+	"time"
 )
 
 // explore <probe> <scratch> <cred 0/1> <mounts,comma> <plant mount> <kinds,comma>
 func exploreMain(args []string) error {
 	probe, scratch := args[0], args[1]
 	cfg := envCfg{Mounts: strings.Split(args[3], ","), Cred: args[2] == "1"}
+	t0 := time.Now()
+	lap := func(what string) { fmt.Println("timing", what, time.Since(t0)); t0 = time.Now() }
 	e, err := buildEnv(cfg, probe, scratch)
+	lap("build")
 	if err != nil {
 		return err
 	}
@@ -21,17 +25,22 @@ func exploreMain(args []string) error {
 		a = append(a, "/"+args[4], k)
 	}
 	r := e.runProg(a, 0)
+	lap("plant")
 	fmt.Printf("plant: %+v\n", r)
 	for _, m := range cfg.Mounts {
 		fmt.Println("host", m, e.hostList(m))
 	}
 	err = e.Reset()
+	lap("reset")
 	fmt.Println("reset:", err)
 	for _, m := range cfg.Mounts {
 		fmt.Println("host", m, e.hostList(m))
 	}
 	l, r := e.progList(cfg.Mounts)
+	lap("proglist")
 	fmt.Println("prog", l, r.Status, r.Err)
+	e.destroy()
+	lap("destroy")
 	fmt.Println("ping", e.Ping())
 	fmt.Fprintln(os.Stderr, "stderr:", e.stderr.String())
 	return nil
